@@ -956,7 +956,16 @@ func (app *Haqq) setPostHandler() {
 func (app *Haqq) BeginBlocker(ctx sdk.Context, req abci.RequestBeginBlock) abci.ResponseBeginBlock {
 	// Perform any scheduled forks before executing the modules logic
 	app.ScheduleForkUpgrade(ctx)
-	return app.mm.BeginBlock(ctx, req)
+	res := app.mm.BeginBlock(ctx, req)
+
+	// The gas meter of the block context is shared with every transaction of the block that fails before
+	// the ante handler installs its own meter (undecodable bytes, rejected message types): baseapp reports
+	// its reading as their GasUsed and adds it to the block gas meter. What the begin blockers consumed
+	// depends on the process (x/capability and x/upgrade do extra work in the first block after a start),
+	// so it must not be left on the meter.
+	ctx.GasMeter().RefundGas(ctx.GasMeter().GasConsumed(), "begin block gas is not charged to transactions")
+
+	return res
 }
 
 // EndBlocker updates every end block
